@@ -252,7 +252,11 @@ fn rotate(
     }
 
     compression.compress(&file, &dst_0).map_err(|e| {
-        println!("err compressing: {:?}, dst: {:?}", file, dst_0);
+        // a diagnostic that cannot be written must not turn the error into a panic
+        let _ = io::Write::write_fmt(
+            &mut io::stdout(),
+            format_args!("err compressing: {:?}, dst: {:?}\n", file, dst_0),
+        );
         e
     })?;
     Ok(())
